@@ -308,7 +308,7 @@ func runC15(c *Ctx) {
 			// the innermost range statement around each append is the same one, and it ranges over the handler map
 			inner := func(s *flow.Site) *ast.RangeStmt {
 				var out *ast.RangeStmt
-				ast.Inspect(u.Body, func(n ast.Node) bool {
+				u.InspectAll(func(n ast.Node) bool {
 					if rs, isR := n.(*ast.RangeStmt); isR && rs.Body.Pos() <= s.Pos && s.Pos < rs.Body.End() {
 						out = rs
 					}
